@@ -541,6 +541,10 @@ func (p *Parser) evaluateValues(ctx context) (evaluatedValues, error) {
 		}
 		// Check if other values follow.
 		if nextToken.Type() != lexer.COMMA {
+			// A function that returns several values can only be used on its own (also as last value of a list).
+			if returnValuesLength > 1 && len(expressions) > 1 {
+				return evaluatedValues{}, p.expectedError(fmt.Sprintf(`only one return value from function "%s"`, funcName), exprToken)
+			}
 			break
 		}
 		p.eat() // Eat comma token.
